@@ -53,7 +53,15 @@ def configs(gen=2):
         out.append(dict(schema=sc, via_update=0, focus=3, mask=ALL, grid=0, cues=0, loops=0, wave=3))
     if not Q:
         out.append(dict(schema=schemas[-1], via_update=1, focus=1, mask=ALL, grid=0, cues=0x01, loops=0, wave=0))
-    for c in out: c['gen'] = gen
+    # sparse snapshots: exactly ONE optional field present (no grid, no cues, no loops), written by create and by update over a fully populated
+    # stored snapshot (found with seeded change C01-3: the 1.x update path dropped the performance data row - and with it a lone main cue)
+    STORED_FULL = ((1 << 20) - 1) << 23        # presence bits of the previously stored snapshot (the harness reads them from bit 23 on)
+    for sc in ([schemas[-1]] if Q else [schemas[0], schemas[-1]]):
+        for bit, focus in ((2, 1), (4, 1), (7, 1), (12, 1), (14, 1), (15, 1), (16, 1), (8, 3), (10, 3), (11, 3), (17, 3)):
+            for via in (1, 0):
+                if Q and via == 0 and bit not in (12, 15): continue
+                out.append(dict(schema=sc, via_update=via, focus=focus, mask=(1 << bit) | STORED_FULL, grid=0, cues=0, loops=0, wave=0, sparse=1))
+    for c in out: c['gen'] = gen; c.setdefault('sparse', 0)
     return out
 
 def main():
